@@ -2,20 +2,27 @@
 EXTENDS Extras, TLC, Json, IOUtils
 Tr == ndJsonDeserialize(IOEnv.TRACE)
 VARIABLES l
-tvars == <<pidvars, fvars, l>>
+tvars == <<pidvars, fvars, lgvars, l>>
 TraceInit == /\ pidHas = FALSE /\ pidErr = 0 /\ pidAt = 0 /\ pidI8 = 0 /\ kp = 0 /\ ki = 0 /\ kd = 0 /\ imin8 = 0 /\ imax8 = 0 /\ eps = 0
              /\ fInit = FALSE /\ fNum = 0 /\ fDen = 1 /\ fPrev = 0 /\ fw = 0 /\ l = 1
+             /\ lgOpen = FALSE /\ lgCols = <<>> /\ lgPending = <<>> /\ lgLines = <<>>
 IsEvent(ev) == l <= Len(Tr) /\ Tr[l].e = ev /\ l' = l + 1
-TReset == /\ IsEvent("Reset") /\ PidSetUp(Tr[l].kp, Tr[l].ki, Tr[l].kd, Tr[l].imin8, Tr[l].imax8, Tr[l].eps) /\ FSetUp(Tr[l].w)
-TPid == IsEvent("pid") /\ Tr[l].ex /\ PidCompute(Tr[l].at, Tr[l].sp, Tr[l].meas, Tr[l].out8k) /\ UNCHANGED fvars
-TFilter == IsEvent("filter") /\ FUpdate(Tr[l].x) /\ Tr[l].ex /\ Tr[l].num = fNum' /\ Tr[l].den = fDen' /\ UNCHANGED pidvars
-TFReset == IsEvent("freset") /\ FReset /\ UNCHANGED pidvars
-TOneToOne == IsEvent("onetoone") /\ UNCHANGED <<pidvars, fvars>> /\ (OneToOneOK(Tr[l].inp, Tr[l].out, Tr[l].byTarget) = TRUE)
-TDuration == /\ IsEvent("duration") /\ UNCHANGED <<pidvars, fvars>>
+TReset == /\ IsEvent("Reset") /\ PidSetUp(Tr[l].kp, Tr[l].ki, Tr[l].kd, Tr[l].imin8, Tr[l].imax8, Tr[l].eps) /\ FSetUp(Tr[l].w) /\ LgSetUp(Tr[l].lgopen)
+TPid == IsEvent("pid") /\ Tr[l].ex /\ PidCompute(Tr[l].at, Tr[l].sp, Tr[l].meas, Tr[l].out8k) /\ UNCHANGED <<fvars, lgvars>>
+TFilter == IsEvent("filter") /\ FUpdate(Tr[l].x) /\ Tr[l].ex /\ Tr[l].num = fNum' /\ Tr[l].den = fDen' /\ UNCHANGED <<pidvars, lgvars>>
+TFReset == IsEvent("freset") /\ FReset /\ UNCHANGED <<pidvars, lgvars>>
+TOneToOne == IsEvent("onetoone") /\ UNCHANGED <<pidvars, fvars, lgvars>> /\ (OneToOneOK(Tr[l].inp, Tr[l].out, Tr[l].byTarget) = TRUE)
+TDuration == /\ IsEvent("duration") /\ UNCHANGED <<pidvars, fvars, lgvars>>
              /\ Tr[l].fromMicro = FromMicro(Tr[l].us) /\ Tr[l].toMicro = ToMicro(Tr[l].ns)
-TRansac == IsEvent("ransac") /\ UNCHANGED <<pidvars, fvars>> /\ (RansacOK(Tr[l]) = TRUE)
-TNlse == IsEvent("nlse") /\ UNCHANGED <<pidvars, fvars>> /\ (NlseOK(Tr[l]) = TRUE)
-TraceNext == TNlse \/ TRansac \/ TReset \/ TPid \/ TFilter \/ TFReset \/ TOneToOne \/ TDuration
+TRansac == IsEvent("ransac") /\ UNCHANGED <<pidvars, fvars, lgvars>> /\ (RansacOK(Tr[l]) = TRUE)
+TNlse == IsEvent("nlse") /\ UNCHANGED <<pidvars, fvars, lgvars>> /\ (NlseOK(Tr[l]) = TRUE)
+TLgAdd == IsEvent("lgadd") /\ LgAdd(Tr[l].name, Tr[l].v) /\ UNCHANGED <<pidvars, fvars>>
+TLgWrite == IsEvent("lgwrite") /\ LgWrite /\ UNCHANGED <<pidvars, fvars>>
+TLgFile == IsEvent("lgfile") /\ UNCHANGED <<pidvars, fvars, lgvars>> /\ Tr[l].lines = lgLines /\ LgHeaderFirst
+TWrap == IsEvent("wrap") /\ UNCHANGED <<pidvars, fvars, lgvars>> /\ Wrap02OK(Tr[l].k, Tr[l].j02) /\ WrapPiOK(Tr[l].k, Tr[l].jpi) /\ Tr[l].ex
+TAlgo == IsEvent("algo") /\ UNCHANGED <<pidvars, fvars, lgvars>> /\ (AlgoOK(Tr[l]) = TRUE)
+TIntervalN == IsEvent("intervaln") /\ UNCHANGED <<pidvars, fvars, lgvars>> /\ (IntervalNOK(Tr[l]) = TRUE)
+TraceNext == TLgAdd \/ TLgWrite \/ TLgFile \/ TWrap \/ TAlgo \/ TIntervalN \/ TNlse \/ TRansac \/ TReset \/ TPid \/ TFilter \/ TFReset \/ TOneToOne \/ TDuration
 TraceSpec == TraceInit /\ [][TraceNext]_tvars
 TraceAccepted == TLCGet("stats").diameter - 1 = Len(Tr)
 =============================================================================
